@@ -277,6 +277,32 @@ func features(g *tg.Graph, rep *vh.Report) (edges int) {
 			for _, p := range m.Props {
 				if p.Shortcut {
 					seen["key_shortcut"] = true
+					continue
+				}
+				c := KeyClass(p.Key)
+				if c == "ordinary" {
+					continue
+				}
+				seen["keyname_"+c] = true
+				d := DecodeKey(p.Key)
+				if g.Type(d) != nil {
+					seen["keyname_is_a_type_name_of_the_graph"] = true
+				}
+				for _, q := range m.Props {
+					if q.Shortcut && q.Key == d {
+						seen["keyname_equals_key_shortcut_of_the_object"] = true
+					}
+				}
+				refs := false
+				p.Val.Walk(func(x *tg.Node) { refs = refs || len(x.NodeRefs()) > 0 })
+				switch {
+				case !refs:
+				case p.Val.Optional:
+					seen["keyname_"+c+"_on_optional_edge"] = true
+				case p.Val.Kind == tg.KArr:
+					seen["keyname_"+c+"_on_array_edge"] = true
+				default:
+					seen["keyname_"+c+"_on_required_edge"] = true
 				}
 			}
 			if !isRoot {
@@ -337,7 +363,7 @@ func Run(args []string) {
 			}
 		}
 	}
-	rep := vh.NewReport(command, "type graphs: quick = 10k random graphs over 1..6 user types + up to 2 MISSING names + 8k dense graphs (3..4 types: two/three-reference objects, aliases, or-lists) + 4k key-shortcut graphs (key types = string literals / aliases / or-lists over shared targets); every 2nd/3rd case LINKED (every type object has every type added too), the others with plain type objects; bodies object/array/alias/or-shortcut/literal with {type}/{or}, properties required/optional/nullable, array items, key shortcuts, allOf (string and list), additionalProperties; thorough adds the bounded-exhaustive one-template-per-type family (19 one-reference templates x all targets: every graph over 1 and 2 types incl. a missing target and both member orders, 14 templates over 3 types, 6 templates {leaf, required, optional, array item, or-shortcut alias, alias} over 4 types). Each graph is compiled as root schema + every type as its own root. nontrivial = at least one type body references a type")
+	rep := vh.NewReport(command, "type graphs: property NAMES: every second graph has 30..100 % of its property names (on required, optional and array edges alike) replaced by quoted names that look like user type names (JSON-LD @graph, the graph's own / missing type names, the key shortcuts of the same object), comment / annotation openers, rule and type keywords, quotes, escapes (\\u0040t0), structural characters, the empty name (stats keyname_*); quick = 10k random graphs over 1..6 user types + up to 2 MISSING names + 8k dense graphs (3..4 types: two/three-reference objects, aliases, or-lists) + 4k key-shortcut graphs (key types = string literals / aliases / or-lists over shared targets); every 2nd/3rd case LINKED (every type object has every type added too), the others with plain type objects; bodies object/array/alias/or-shortcut/literal with {type}/{or}, properties required/optional/nullable, array items, key shortcuts, allOf (string and list), additionalProperties; thorough adds the bounded-exhaustive one-template-per-type family, every sixth graph of it a second time with all names from the pool (19 one-reference templates x all targets: every graph over 1 and 2 types incl. a missing target and both member orders, 14 templates over 3 types, 6 templates {leaf, required, optional, array item, or-shortcut alias, alias} over 4 types). Each graph is compiled as root schema + every type as its own root. nontrivial = at least one type body references a type")
 	seed := vh.Seed()
 	workers := runtime.NumCPU()
 	if workers > 16 {
@@ -348,7 +374,7 @@ func Run(args []string) {
 	var casesMu sync.Mutex
 	emitNo := 0
 	linkedNext := false
-	emit := func(g *tg.Graph, r *rand.Rand) {
+	emitPlain := func(g *tg.Graph, r *rand.Rand) {
 		k := mkCase(emitNo, g)
 		emitNo++
 		k.linked = linkedNext
@@ -367,6 +393,23 @@ func Run(args []string) {
 		cases[k.no] = k
 		casesMu.Unlock()
 		reqs <- req
+	}
+	// random streams: every second graph has 30..100 % of its property names taken from the pool of names
+	// that look like type names / comments / rules / … (keys.go)
+	emit := func(g *tg.Graph, r *rand.Rand) {
+		if r.Intn(2) == 0 {
+			g = Rekey(g, r, 30+r.Intn(71))
+		}
+		emitPlain(g, r)
+	}
+	// exhaustive family: every graph as enumerated, every sixth one once more with all names from the pool
+	emitBoth := func(r *rand.Rand) func(*tg.Graph) {
+		return func(g *tg.Graph) {
+			emitPlain(g, r)
+			if r.Intn(6) == 0 {
+				emitPlain(Rekey(g, r, 100), r)
+			}
+		}
 	}
 	go func() {
 		defer close(reqs)
@@ -389,10 +432,10 @@ func Run(args []string) {
 		linkedNext = false
 		if vh.Tier() == "thorough" {
 			r := vh.NewRand(910)
-			family(1, true, allTemplates(), []int{3, 8, 14, 15}, func(g *tg.Graph) { emit(g, r) })
-			family(2, true, allTemplates(), []int{3, 8, 14, 6}, func(g *tg.Graph) { emit(g, r) })
-			family(3, false, []int{0, 1, 3, 4, 5, 6, 7, 8, 9, 11, 12, 13, 16, 18}, []int{3, 14}, func(g *tg.Graph) { emit(g, r) })
-			family(4, false, []int{0, 3, 4, 5, 7, 8}, []int{3}, func(g *tg.Graph) { emit(g, r) })
+			family(1, true, allTemplates(), []int{3, 8, 14, 15}, emitBoth(r))
+			family(2, true, allTemplates(), []int{3, 8, 14, 6}, emitBoth(r))
+			family(3, false, []int{0, 1, 3, 4, 5, 6, 7, 8, 9, 11, 12, 13, 16, 18}, []int{3, 14}, emitBoth(r))
+			family(4, false, []int{0, 3, 4, 5, 7, 8}, []int{3}, emitBoth(r))
 		}
 	}()
 
